@@ -11,13 +11,16 @@ VALID_BOUNDS = [('i', 0), ('i', 1), ('i', 2), ('i', 3)]
 
 
 class Gen:
-    def __init__(self, seed, unicode_share=0.35, bad_share=0.04):
+    def __init__(self, seed, unicode_share=0.35, bad_share=0.04, alphabet=None):
         self.r = random.Random(seed)
         self.us = unicode_share
         self.bad = bad_share
+        self.alphabet = alphabet
 
     def cp(self):
         r = self.r
+        if self.alphabet:
+            return r.choice(self.alphabet)
         x = r.random()
         if x < 0.45:
             return r.choice(UV.META + UV.INCLASS)
